@@ -492,6 +492,12 @@ func drive(d *mon.Driver, replay string) int {
 		}
 		flush(srcOpts, false)
 	}
+	// statement headers with every combination of present, absent and unusual clauses
+	for a := range clauseSources {
+		p.add("clauses", caseData{Spec: &spec{Fam: "clauses", A: a}, DeadlineMS: 150, Filename: a%4 == 0, Direct: a%5 == 0})
+		flush(srcOpts, false)
+	}
+	d.Extra("clause_sources", len(clauseSources))
 	d.Extra("restricted_positions", map[string]any{"positions": len(restrictPositions), "expression_kinds": len(exprKinds), "literal_contexts": len(lexContexts), "characters": len(lexChars)})
 	nBytes := d.N(3000, 300000)
 	for i := 0; i < nBytes; i++ {
